@@ -70,11 +70,26 @@ out = (samples, logps)
     s.ob(rule, "MultiCategorical._split_or_unpack_params", len(flat) == 1, "one accepting path for flat parameters", s.loc("MultiCategorical", "_split_or_unpack_params"),
          key="flat-paths", detail=str(len(flat)))
     if len(flat) == 1:
-        want = s.ref(bs, "(tuple(jnp.split(jnp.asarray(params), jnp.cumsum(jnp.asarray(action_dims[:-1])), axis=-1)), action_dims)",
-                     {"params": ("param", "params"), "action_dims": ("param", "action_dims")})
-        s.eq(rule, "MultiCategorical._split_or_unpack_params[flat]", nzs, flat[0].ret, want,
-             "flat parameters are split at cumsum(action_dims[:-1]) on the last axis and action_dims is returned unchanged", s.loc("MultiCategorical", "_split_or_unpack_params"),
-             key="flat-split", necessary_for="flat and sequence parameterisations describe the same product law")
+        # the split points are the running sums of action_dims[:-1]; they have to be static Python/NumPy integers, because
+        # jnp.split needs concrete indices and a jnp.cumsum result is a tracer under jit/vmap (the flat form is what the
+        # multi-discrete policy head builds inside transformed code)
+        bindf = {"params": ("param", "params"), "action_dims": ("param", "action_dims"), "np": ("global", "numpy"), "itertools": ("global", "itertools")}
+        spellings = ["[sum(action_dims[: i + 1]) for i in range(len(action_dims) - 1)]", "np.cumsum(action_dims[:-1])", "np.cumsum(np.asarray(action_dims[:-1]))",
+                     "tuple(itertools.accumulate(action_dims[:-1]))", "list(itertools.accumulate(action_dims[:-1]))",
+                     "jnp.cumsum(jnp.asarray(action_dims[:-1]))"]
+        got = nzs.canon(flat[0].ret)
+        wants = [nzs.canon(s.ref(bs, f"(tuple(jnp.split(jnp.asarray(params), {sp}, axis=-1)), action_dims)", bindf)) for sp in spellings]
+        s.ob("C15.2", "MultiCategorical._split_or_unpack_params[flat]", got in wants,
+             "flat parameters are split at the running sums of action_dims[:-1] on the last axis and action_dims is returned unchanged", s.loc("MultiCategorical", "_split_or_unpack_params"),
+             key="flat-split", detail=f"code: {show_term(got, 400)}\naccepted, e.g.: {show_term(wants[0], 400)}", necessary_for="flat and sequence parameterisations describe the same product law")
+        splits = [c for c in walk(flat[0].ret) if isinstance(c, tuple) and c and c[0] == "call" and c[1] == ("global", "jax.numpy.split")]
+        dyn = []
+        for c in splits:
+            idx = c[2][1] if len(c[2]) > 1 else dict((k, v) for k, v in c[3] if k).get("indices_or_sections")
+            dyn += [x[1][1] for x in walk(idx) if isinstance(x, tuple) and x and x[0] == "call" and isinstance(x[1], tuple) and x[1][0] == "global" and x[1][1].startswith("jax.")]
+        s.ob("C15.2", "MultiCategorical._split_or_unpack_params[flat]", bool(splits) and not dyn, "the split points are static integers (no jax.numpy computation: usable under jit / vmap)",
+             s.loc("MultiCategorical", "_split_or_unpack_params"), key="flat-split-static", detail="; ".join(sorted(set(dyn))) or f"{len(splits)} split call(s)",
+             necessary_for="the flat parameterisation is a valid product law inside jit / vmap as well (where the policy heads construct it)")
         guards = [nzs.canon(t) for t, v in flat[0].conds]
         gwant = nzs.canon(s.ref(bs, "jnp.asarray(params).shape[-1] != int(sum(action_dims))", {"params": ("param", "params"), "action_dims": ("param", "action_dims")}))
         s.ob(rule, "MultiCategorical._split_or_unpack_params[flat]", gwant in guards, "the total width is checked against sum(action_dims)", s.loc("MultiCategorical", "_split_or_unpack_params"),
@@ -173,6 +188,9 @@ def check(s):
              detail=ast.unparse(h)[:200], necessary_for="the mode of a squashed law lies in the support [low, high]")
     # ---------------------------------------------------------------- C15.5 parameter wiring of the constructors and accessors
     check_params(s)
+    from .util import fields_initialised
+    fields_initialised(s, "C15.5", [c for m_ in sorted(P.modules.values(), key=lambda m__: m__.name) if m_.name.startswith("lerax.distribution") for c in m_.classes.values()],
+                       necessary_for="every distribution class is a usable law for every valid parameterisation")
     for r_, n_ in (("C15.1", 8), ("C15.2", 9), ("C15.3", 9), ("C15.4", 3), ("C15.5", 40)):
         s.floor(r_, n_)
 
